@@ -90,6 +90,8 @@ def base_namespace(engine, universe):
 
     for name, (module, attr) in getattr(engine, "native_imports", {}).items():
         engine.native_ns[name] = getattr(import_real(module, engine.src_root), attr)
+    for hook in getattr(engine, "native_hooks", []):
+        hook(engine.native_ns, engine.src_root)
     ns = dict(engine.native_ns)
     ns.update(
         implies=lambda a, b: (not a) or bool(b),
